@@ -18,7 +18,9 @@ RULE = ('one run = one simulated hand: configuration (12 predefined + 8 user-def
         'automation subset, 1-2 boards, int/Fraction/float/Decimal chips incl. int amounts inside Fraction stacks, '
         'rake none/percentage+cap/no-flop-no-drop/per-pot, divmod default/exact/chip-denomination) and every agent '
         'decision drawn from the seeded choice sequence; conservation, non-negativity, payoff identity and a '
-        'record-driven chip ledger are checked after every logged operation (also mid-cascade). '
+        'record-driven chip ledger are checked after every logged operation (also mid-cascade); a quarter of the runs are '
+        '"quiet": no derived value is read before the hand is over (the ledger still follows the records), so that a value '
+        'the engine caches is not refreshed by the observer. '
         'non-trivial = the hand contains a voluntary wager (call > 0 or bet/raise); distinct = distinct '
         '(configuration class, operation-class sequence) digests among non-trivial hands')
 ASSUMPTIONS = [
@@ -63,8 +65,9 @@ def voluntary_forfeits(world):
 class ChipLedger(Monitor):
     """Conservation invariants + a ledger rebuilt from the operation records alone."""
 
-    def __init__(self):
+    def __init__(self, quiet=False):
         self.init = False
+        self.quiet = quiet          # quiet runs do not read any derived value (pots, ...) before the hand is over
 
     def start(self, st):
         self.init = True
@@ -123,6 +126,8 @@ class ChipLedger(Monitor):
                 self.fail(st, op, 'pull: amount pulled differs from the chips in front of the player')
             self.stacks[i] += op.amount
             self.bets[i] = 0
+        if self.quiet:
+            return          # observer effect: reading `pots` after every operation could itself refresh (or prime) a cache
         # --- invariants on the real state
         pots = list(st.pots)
         chips = sum(st.stacks) + sum(st.bets) + sum(p.raked_amount + p.unraked_amount for p in pots)
@@ -153,6 +158,13 @@ class ChipLedger(Monitor):
         if not self.init:
             self.start(st)
         op = st.operations[-1] if st.operations else None
+        if self.quiet:
+            for i in range(self.n):
+                if not close(st.stacks[i], self.stacks[i]) or not close(st.bets[i], self.bets[i]):
+                    self.fail(st, op, f'ledger: player {i} ends with stack {st.stacks[i]} bet {st.bets[i]}, the records explain stack '
+                              f'{self.stacks[i]} bet {self.bets[i]} (run without intermediate reads)')
+            if not close(sum(st.stacks) + sum(st.bets) + sum(p.raked_amount + p.unraked_amount for p in st.pots), self.total):
+                self.fail(st, op, 'conservation: chips at the end differ from the chips at the start (run without intermediate reads)')
         live = sum(st.statuses)
         tags = dict(live_at_end=live, voluntary_forfeit=voluntary_forfeits(world) > 0)
         if any(st.bets):
@@ -171,7 +183,8 @@ class ChipLedger(Monitor):
 
 def run(ch, ctx):
     cfg = gen_config(ch, BIAS)
-    mon = ChipLedger()
+    quiet = ch.chance('c01.quiet', 1, 4)
+    mon = ChipLedger(quiet)
     world = None
     forfeits = ch.chance('c01.forfeits', 1, 3)      # voluntary mucks / partial shows only in a third of the runs
     try:
@@ -196,6 +209,7 @@ def run(ch, ctx):
     ctx.count('pushes', names.count('ChipsPushing'))
     ctx.count('short_forced_bet', any(cfg['stacks'][i] < cfg['bb'] for i in range(cfg['n'])))
     ctx.count('custom_variant', 'custom' in cfg)
+    ctx.count('quiet_runs_no_intermediate_reads', quiet)
     ctx.count('uncalled_returned', mon.init and mon.returned > 0)
     ctx.count('odd_chip_pushes', sum(1 for op in st.operations if type(op).__name__ == 'ChipsPushing'
                                      and len({a for a in op.amounts if a}) > 1))
